@@ -14,9 +14,13 @@
 (* is the expected observation of a visitor that stops at its k-th callback.*)
 EXTENDS View
 
-VARIABLES stop      \* the callback at which the visitor returns true (0 = never)
+VARIABLES stop,     \* the callback at which the visitor returns true (0 = never)
+          how       \* how group entries are walked: "visit" = visit_children(group),
+                    \* "sub1" = consecutive cursor_subrange(c, pos, 1) chunks; "sub2" =
+                    \* chunks of 2, the last one through cursor_subrange(c, pos):
+                    \* the chunking must be invisible in the log
 
-svars == <<sh, mode, buf, pc, last, memo, stop>>
+svars == <<sh, mode, buf, pc, last, memo, stop, how>>
 
 Key(li, name) == Append(LV[li].path, name)
 
@@ -115,12 +119,15 @@ VInit == /\ MemoInit
          /\ pc = 0
          /\ last = [op |-> "init", li |-> 0, ip |-> <<>>, k |-> 0]
          /\ stop = -1
+         /\ how = "visit"
 
 \* one visit of the whole message by a recursive visitor stopping at callback k
-VisitStop(k) == /\ stop = -1
-                /\ stop' = k
-                /\ UNCHANGED <<sh, mode, buf, pc, last, memo>>
-VNext == \E k \in 0 .. Len(DenLog(sh)) : VisitStop(k)
+VisitStop(k, h) == /\ stop = -1
+                   /\ stop' = k
+                   /\ how' = h
+                   /\ UNCHANGED <<sh, mode, buf, pc, last, memo>>
+VNext == \/ \E k \in 0 .. Len(DenLog(sh)) : VisitStop(k, "visit")
+         \/ \E h \in {"sub1", "sub2"} : VisitStop(0, h)
 
 \* ---- properties
 VisitOrderComplete == stop = -1 => Strip(OpLog(buf)) = DenLog(sh) \o <<>>
@@ -138,7 +145,7 @@ EmitVisit ==
   \E l \in {OpLog(buf)} :
     PrintT(ToJson([kind |-> "visit", msg |-> Msg(MI).name, v0 |-> V0,
                    size |-> MsgSize(MI, sh), ext |-> sh.ext, buf |-> buf,
-                   stop |-> stop',
+                   stop |-> stop', how |-> how',
                    log |-> IF stop' = 0 THEN l ELSE SubSeq(l, 1, stop'),
                    complete |-> stop' = 0,
                    end_cur |-> V0 + MsgSize(MI, sh)]))
